@@ -1031,3 +1031,91 @@ def ts7(P, C, floor=3):
              ("%d release(s) of member storage, each followed by an assignment to the member before anything can raise" % len(rel)) if not bad else
              "%s at %s may raise while %s still holds the pointer released at %s" % (f.k(bad[0][0]), f.loc(bad[0][0]), bad[0][1][1], bad[0][1][2]))
     return n
+
+
+def ts3b(P, C, floor=1):
+    """TS-3b: storage that exists while ndim is 0 (the auxiliary keys) is not overwritten by a populating operation."""
+    C.rule("TS-3b", "a function that points `aux` at a fresh array without having released the old one (the reader) is entered only with a table "
+           "known to hold no auxiliary keys: its call sites are dominated by a throwing test of naux (or aux) besides the test of ndim, or by "
+           "clear(), or are constructors — write_key works on a table without a spline, so `ndim == 0` alone does not mean `empty`", floor=floor)
+    sites = []
+    for f in mutators(P):
+        for i in f.walk():
+            ap = assign_parts(f, i)
+            if not ap or ap[1] is None:
+                continue
+            r = root_member(f, ap[0])
+            if not (r and r[0] == "aux" and r[1] == 0 and r[2] == "this"):
+                continue
+            rhs = f.strip(ap[1])
+            if (f.nodes[rhs].get("callee") or {}).get("name") != "allocate":
+                continue
+            sites.append((f, i))
+
+    def known_keyless_before(f, target):
+        def transfer(st, e, b, j):
+            if e.get("kind") != "stmt":
+                return st
+            cal = f.nodes[e["n"]].get("callee")
+            if cal and cal["name"] == RESET_FN:
+                return True
+            if cal and cal["name"] == "deallocate" and f.args(e["n"]) and root_member(f, f.args(e["n"])[0]) and root_member(f, f.args(e["n"])[0])[:2] == ("aux", 0):
+                return True                                  # the old array was released here
+            return st
+
+        def edge(st, b, k, s, cond):
+            if cond is None or cond < 0:
+                return st
+            c, neg = core.cond_polarity(f, cond)
+            n = f.nodes[c]
+            # the last block of `A || B` carries the whole disjunction as its condition: on its false edge every disjunct is false
+            # (dually for `A && B` on the true edge)
+            if n["k"] == "BinaryOperator" and n["op"] in ("||", "&&") and not neg:
+                if (n["op"] == "||" and k == 1) or (n["op"] == "&&" and k == 0):
+                    out = st
+                    for sub in n["ch"]:
+                        out = out or edge(st, b, k, s, sub)
+                    return out
+                return st
+            rr = None
+            nz_when_true = None
+            if n["k"] == "BinaryOperator" and n["op"] in ("!=", "=="):
+                l, r = (f.strip(x) for x in n["ch"])
+                rr = root_member(f, l)
+                if rr and (f.nodes[r].get("cv") == 0 or is_null(f, r)):
+                    nz_when_true = (n["op"] == "!=") != neg
+            elif n["k"] == "MemberExpr":
+                rr = root_member(f, c)
+                nz_when_true = not neg
+            if rr and rr[0] in ("naux", "aux") and rr[1] == 0 and nz_when_true is not None:
+                empty_edge = (k == 1) if nz_when_true else (k == 0)
+                if empty_edge:
+                    return True
+            return st
+        IN, OUT = core.dataflow(f, f.kind == "ctor", transfer, lambda a, b: a and b, edge)
+        pos = f.node_positions()
+        if target not in pos:
+            return False
+        return bool(core.state_before(f, IN, transfer, *pos[target]))
+
+    n = 0
+    for (f, i) in sites:
+        if known_keyless_before(f, i):
+            continue                                          # releases the old array itself (write_key, remove_key) or tests naux
+        n += 1
+        callers = []
+        for g in P.functions.values():
+            if g.unit != "driver":
+                continue
+            for ci, cal in g.calls():
+                if cal and cal["usr"] == f.usr:
+                    callers.append((g, ci))
+        ok = bool(callers) and all(known_keyless_before(g, ci) for g, ci in callers)
+        badc = [fshort(g) for g, ci in callers if not known_keyless_before(g, ci)]
+        C.ob("TS-3b", fshort(f), "aux-overwritten-only-when-keyless", ok, f.loc(i),
+             ("%d call site(s), each entered only with naux == 0 (or after clear(), or a constructor)" % len(callers)) if ok else
+             "aux is pointed at a fresh array while the table may hold keys (call sites without a test of naux: %s): the old entries leak and the "
+             "keys are silently lost" % ", ".join(badc))
+    if n == 0 and not sites:
+        raise core.AnalysisBroken("TS-3b: no assignment of a fresh array to aux found")
+    return n
